@@ -283,5 +283,5 @@ pub fn history(max_ops: usize, max_ids: usize, foreign_entries: usize) -> impl S
         2 => (0u8..12, any::<bool>()).prop_map(|(n, a)| Init::Written(n, a)),
         2 => (layout::layout(LGen { max_entries: foreign_entries, big_runs: false }), any::<bool>()).prop_map(|(l, a)| Init::Foreign(l, a)),
     ];
-    (init, alphabet(max_ids), content::pool(10, false, false), 1u8..=4, proptest::collection::vec(op(1), 1..=max_ops)).prop_map(|(init, ids, pool, internal, ops)| History { init, ids, pool, internal, ops })
+    (init, alphabet(max_ids), (content::pool(10, false, false), any::<u8>()).prop_map(|(p, f)| content::with_mid_pair(p, f)), 1u8..=4, proptest::collection::vec(op(1), 1..=max_ops)).prop_map(|(init, ids, pool, internal, ops)| History { init, ids, pool, internal, ops })
 }
